@@ -148,6 +148,11 @@ def check(prog: Program, run: Run) -> None:
     run.rule("C17.R7", "the non-strict continuation of an odxraise in a use-time method of a "
              "database class does not modify the object", floor=20)
     _check_memo_and_fallbacks(prog, run)
+    run.rule("C17.R8", "what the non-strict continuation of a reported problem hands on does not "
+             "crash by construction: a codec name that may be None is tested before "
+             "bytes.decode / str.encode, and a placeholder object built after an odxraise "
+             "passes no None into a __post_init__ that dereferences it", floor=4)
+    _check_continuations(prog, run)
     # the truncation guard is what callers probe with (next alternative, end-marker search):
     # it has to raise unconditionally, a mode-dependent odxraise changes valid results
     from . import c05
@@ -403,6 +408,138 @@ def _check_memo_and_fallbacks(prog: Program, run: Run) -> None:
                         scan(h.body)
         scan(f.node.body)
     run.info("odxraise_fallbacks_in_database_classes", sites)
+
+
+def _is_none_expr(e: ast.AST) -> bool:
+    return isinstance(e, ast.Constant) and e.value is None or (
+        isinstance(e, ast.Call) and call_name(e) == "cast" and any(
+            isinstance(a, ast.Constant) and a.value is None for a in e.args))
+
+
+def _check_continuations(prog: Program, run: Run) -> None:
+    from ..cfg import CFG
+    from .isotp import _none_guarded, _stmt_of
+    R = "C17.R8"
+    # (a) codec names: `x.decode(v, ...)` / `x.encode(v, ...)` where v is the result of a function
+    #     that may return None (annotated Optional, or with a `return None`)
+    may_none = set()
+    declared = set()
+    for f in prog.iter_functions():
+        ann = ast.unparse(f.node.returns) if f.node.returns is not None else ""
+        if "str" not in ann:
+            continue
+        if ann.startswith("Optional"):
+            declared.add(f.name)
+        fcfg = CFG(f.node)
+        live = fcfg.reachable(0)
+        for nd in fcfg.nodes:
+            if nd.id in live and nd.kind == "stmt" and isinstance(nd.stmt, ast.Return) and (
+                    nd.stmt.value is None or _is_none_expr(nd.stmt.value)):
+                may_none.add(f.name)  # a `return None` that control can reach
+            if nd.id in live and nd.kind == "stmt" and 1 in fcfg.succ[nd.id] and not isinstance(
+                    nd.stmt, (ast.Return, ast.Raise)):
+                may_none.add(f.name)  # falls off the end
+    n = 0
+    for g in prog.iter_functions():
+        if not g.module.rel.startswith("odxtools/"):
+            continue
+        src = {}
+        for x in walk_no_nested(g.node):
+            if isinstance(x, ast.Assign) and isinstance(x.value, ast.Call) and call_name(
+                    x.value) in may_none | declared and isinstance(x.targets[0], ast.Name):
+                src[x.targets[0].id] = call_name(x.value)
+        if not src:
+            continue
+        cfg = CFG(g.node)
+        for x in walk_no_nested(g.node):
+            if isinstance(x, ast.Call) and isinstance(x.func, ast.Attribute) and x.func.attr in (
+                    "decode", "encode") and x.args and isinstance(x.args[0], ast.Name) and \
+                    x.args[0].id in src:
+                v = x.args[0].id
+                n += 1
+                st = _stmt_of(g.node, x)
+                node = cfg.nodes[cfg.node_of(st)]
+                if src[v] not in may_none:
+                    run.ok(R, g.qual, f"`{ast.unparse(x)[:50]}`: no `return None` of {src[v]} "
+                           "is reachable", f"{g.module.rel}:{x.lineno}")
+                elif _none_guarded(cfg, node, st, x, v):
+                    run.ok(R, g.qual, f"`{ast.unparse(x)[:50]}`: {v} (from {src[v]}) is tested "
+                           "for None first", f"{g.module.rel}:{x.lineno}")
+                else:
+                    run.violation(R, g.qual, f"codec-may-be-none-{v}",
+                                  f"`{ast.unparse(x)[:60]}`: {v} comes from {src[v]}(), which "
+                                  "returns None after reporting an illegal encoding in "
+                                  "non-strict mode; .decode/.encode(None) raises TypeError, so "
+                                  "the problem is not downgraded but replaced by a foreign "
+                                  "exception", f"{g.module.rel}:{x.lineno}", stmt_key(st))
+    # (b) placeholder objects built after an odxraise
+    m = 0
+    for g in prog.iter_functions():
+        if not g.module.rel.startswith("odxtools/"):
+            continue
+        raises = [x for x in walk_no_nested(g.node) if isinstance(x, ast.Expr) and isinstance(
+            x.value, ast.Call) and call_name(x.value) in ("odxraise", "odxrequire", "odxassert")]
+        if not raises:
+            continue
+        cfg = None
+        for x in walk_no_nested(g.node):
+            if not (isinstance(x, ast.Call) and isinstance(x.func, ast.Name) and
+                    prog.has_cls(x.func.id)):
+                continue
+            none_fields = [k.arg for k in x.keywords if k.arg and _is_none_expr(k.value)]
+            if not none_fields:
+                continue
+            cfg = cfg or CFG(g.node)
+            st = _stmt_of(g.node, x)
+            sn = cfg.node_of(st)
+            if not any(sn in cfg.reachable(cfg.node_of(r)) for r in raises):
+                continue
+            m += 1
+            ci = prog.cls(x.func.id)
+            bad = None
+            for c in prog.mro(ci):
+                pi = c.methods.get("__post_init__")
+                if pi is None:
+                    continue
+                pcfg = CFG(pi.node)
+                for y in walk_no_nested(pi.node):
+                    base = None
+                    if isinstance(y, ast.Attribute) and isinstance(y.value, ast.Attribute) and \
+                            isinstance(y.value.value, ast.Name) and y.value.value.id == "self" \
+                            and y.value.attr in none_fields:
+                        base = y.value
+                    if isinstance(y, ast.Subscript) and isinstance(y.value, ast.Attribute) and \
+                            isinstance(y.value.value, ast.Name) and y.value.value.id == "self" \
+                            and y.value.attr in none_fields:
+                        base = y.value
+                    if base is None:
+                        continue
+                    pst = _stmt_of(pi.node, y)
+                    # a guard on self.<field> (is not None / truthiness) in front of the use
+                    guarded = False
+                    for t, pol in pcfg.branch_conditions(pcfg.node_of(pst)):
+                        if ast.unparse(base) in ast.unparse(t):
+                            guarded = True
+                    for b in ast.walk(pst):
+                        if isinstance(b, (ast.BoolOp, ast.IfExp)) and ast.unparse(base) in \
+                                ast.unparse(b.values[0] if isinstance(b, ast.BoolOp) else b.test):
+                            guarded = True
+                    if not guarded:
+                        bad = (c, pi, y, base)
+            if bad:
+                c, pi, y, base = bad
+                run.violation(R, g.qual, f"placeholder-{x.func.id}-{base.attr}",
+                              f"after reporting the problem, {g.qual} continues with "
+                              f"`{x.func.id}({base.attr}=None, ...)`, but {c.name}.__post_init__ "
+                              f"evaluates `{ast.unparse(y)}`: AttributeError/TypeError in "
+                              "non-strict mode instead of the downgraded result",
+                              f"{pi.module.rel}:{y.lineno}", stmt_key(_stmt_of(pi.node, y)))
+            else:
+                run.ok(R, g.qual, f"`{x.func.id}(...)` built after a reported problem passes "
+                       f"None for {none_fields}; no __post_init__ dereferences them",
+                       f"{g.module.rel}:{x.lineno}")
+    if n < 3 or m < 1:
+        raise AnalysisError(f"continuations: {n} codec uses, {m} placeholder constructions")
 
 
 def _check_signals(prog: Program, run: Run) -> None:
